@@ -58,6 +58,8 @@ class Lexer:
             elif ch == "<":
                 self.consume_bracketed()
             elif ch == ":":
+                # The token starts at the colon, although its value is only the name.
+                loc = self.get_location()
                 self.next_char()
                 if self.position < len(self.text) and (
                     self.text[self.position].isalpha()
@@ -68,6 +70,7 @@ class Lexer:
                 else:
                     length = 0
                 self.set_token(Token.FMT, length=length)
+                self.tkn.location = loc
             elif ch == "-":
                 self.set_token(Token.MINUS)
             elif ch == "+":
